@@ -38,7 +38,7 @@ func init() {
 		Rule: "case = sketch reached by a seeded history incl. cleared-then-refilled stores, negatives with every store kind and arbitrary non-negative float64 weights: ToProto -> proto.Marshal -> Unmarshal -> FromProtoWithStoreProvider(any kind) must give an Equals mapping and bitwise equal zero weight and bin weights (count within 1e-12); EncodeProto bytes must unmarshal to a message proto.Equal to ToProto(); " +
 			"sources are also reweighted and may hold bins whose weight underflowed to zero (which carry nothing to rebuild); hand-built messages mixing binCounts and contiguousBinCounts (dyadic weights where they overlap, indexes also at both ends of the int32 range) must add up, and the rebuilt sketch written again by both writers must describe the same bins. Non-trivial = both stores non-empty and >=1 non-integer weight; distinct = hash of the history.",
 		Cases:     core.Scale(60000, 1500000),
-		Mandatory: []string{"oracle.proto_roundtrips", "oracle.stream_equals_message", "oracle.mixed_message_checks", "weights.arbitrary", "source.cleared_then_refilled", "proto.target.dense", "proto.target.sparse", "proto.target.paginated", "proto.target.collapsing_lowest", "proto.target.collapsing_highest", "proto.via_FromProto", "proto.via_paginated_method", "source.underflowed_bins", "source.reweighted", "mixed.extreme_indexes", "oracle.mixed_second_leg", "source.unread_before_writing"},
+		Mandatory: []string{"oracle.proto_roundtrips", "oracle.stream_equals_message", "oracle.mixed_message_checks", "weights.arbitrary", "source.cleared_then_refilled", "proto.target.dense", "proto.target.sparse", "proto.target.paginated", "proto.target.collapsing_lowest", "proto.target.collapsing_highest", "proto.via_FromProto", "proto.via_paginated_method", "source.underflowed_bins", "source.reweighted", "mixed.extreme_indexes", "oracle.mixed_second_leg", "source.unread_before_writing", "source.wide_span", "oracle.message_is_a_snapshot"},
 		Run:       runC09,
 	})
 }
@@ -408,6 +408,19 @@ func runC09(c *core.Ctx) {
 		}
 		return true
 	}
+	if !spec.Collapsing() && r.P(0.12) {
+		// a wide store: one more value 3000-30000 bins away from the rest (still within the dense store's span budget)
+		far := vs.ci + r.Range(3000, 30000)*(1-2*r.Intn(2))
+		if far > m.IMin+2 && far < m.IMax-2 {
+			if v := m.M.Value(far); v > m.Min*4 && v < m.Max/4 {
+				if pattern == "neg" || pattern == "zeros+neg" || (pattern != "pos" && r.Bool()) {
+					v = -v
+				}
+				vs.vals = append(vs.vals, v)
+				c.Count("source.wide_span", 1)
+			}
+		}
+	}
 	if r.P(0.3) {
 		// cleared-then-refilled store
 		for _, v := range vs.vals[:len(vs.vals)/2+1] {
@@ -587,6 +600,31 @@ func runC09(c *core.Ctx) {
 			if c1, c2 := s.P.GetCount(), d.GetCount(); math.Abs(c1-c2) > 1e-12*math.Abs(c1) {
 				c.Failf("proto.count", "count %v rebuilt as %v", c1, c2)
 			}
+		}
+	}
+	// the message is a value of its own: the sketch goes on absorbing values into bins it already holds, is
+	// reweighted (or cleared and refilled), and the message taken before still says what it said
+	{
+		var snap sketchpb.DDSketch
+		if err := proto.Unmarshal(raw, &snap); err != nil {
+			c.Failf("proto.unmarshal", "%v", err)
+			return
+		}
+		c.Guard("source goes on", func() {
+			if r.P(0.2) {
+				s.P.Clear()
+			}
+			for i := 0; i < 4; i++ {
+				s.P.AddWithCount(vs.vals[r.Intn(len(vs.vals))], float64(r.Range(1, 9)))
+			}
+			if r.Bool() {
+				s.P.Reweight(2)
+			}
+		})
+		c.Count("oracle.message_is_a_snapshot", 1)
+		if !c.Failed() && !proto.Equal(pb, &snap) {
+			c.Failf("proto.message_follows_source", "the message returned by ToProto() changed when the sketch it came from was used further: now %v, at the time %v", shortPB(pb), shortPB(&snap))
+			return
 		}
 	}
 	// store-level helper
